@@ -183,7 +183,7 @@ class C03(Check):
             'included) x both chunk-size conventions. Sub-space "meta": all sequences of <=3 (quick) / <=4 (thorough) '
             'metadata/log blocks over 7 kinds (dyld modules, trace codes, processes, kexts, images, log events, unknown tag) '
             'with occurrence-numbered payloads, the string index placed at every position, x thread maps (4) x gap bytes after '
-            'MORE_EVENTS (4). Sub-space "blocks": every filler length 362..531, 3946..4115, 8042..8211 before the stackshot sentinel, before the thread-map tag and after MORE_EVENTS (a tag at / across every 512/4096/8192-byte block boundary). Sub-space "tagged": records whose first bytes are container tags / the v3 magic, in every position and chunking. Sub-space "cli": the processes / kexts / images commands print the sections as JSON. Sub-space "long": 64/513/1500 records in 1..3 chunks. Sub-space "reuse": ONE parser object parses '
+            'MORE_EVENTS (4). Sub-space "blocks": every filler length 362..531, 3946..4115, 8042..8211 before the stackshot sentinel, before the thread-map tag and after MORE_EVENTS (a tag at / across every 512/4096/8192-byte block boundary). Sub-space "tagged": records whose first bytes are container tags / the v3 magic, in every position and chunking. Sub-space "order": records with equal and decreasing timestamps in every order and chunking stay in file order. Sub-space "cli": the processes / kexts / images commands print the sections as JSON. Sub-space "long": 64/513/1500 records in 1..3 chunks. Sub-space "reuse": ONE parser object parses '
             'two dumps in turn (6 x 6 block sequences x 3 map pairs); the second parse must leave the second dump\'s metadata only. Oracle: events all/in order/== independent decode/before any log; tables after the thread-map '
             'chunk and after logs; list-valued sections concatenated in file order; scalar sections equal one of their '
             'payloads; logs in order with strings resolved. non-trivial = >=2 chunks or >=2 blocks. states = distinct '
@@ -209,6 +209,7 @@ class C03(Check):
         out += [('blocks', which) for which in ('filler1', 'filler2', 'gap')]
         out.append(('tagged',))
         out.append(('cli',))
+        out.append(('order',))
         return out
 
     def run_shard(self, desc, acc):
@@ -266,6 +267,21 @@ class C03(Check):
                     acc.case(nontrivial=True, transitions=4, state=h64(('tagged', seq, comp)), outcome=h64(('tagged', seq)))
                     for sig, detail in bad:
                         acc.violation(sig + ':record-looks-like-a-tag', {'kind': 'tagged', 'seq': list(seq), 'comp': list(comp)}, detail)
+        elif desc[0] == 'order':
+            # equal and decreasing timestamps, argument bytes in every relative order: events come out in FILE order
+            pool = [B.rec(ts, (a, 0, 0, 0), 9, 0x040c0004 | q) for ts, a, q in ((5, 9, 2), (5, 1, 1), (5, 5, 0), (4, 7, 1), (6, 0, 2))]
+            for perm in itertools.permutations(range(len(pool)), 4):
+                recs = [pool[i] for i in perm]
+                for comp in ((4,), (2, 2), (1, 3), (3, 1)):
+                    chunks, i = [], 0
+                    for c in comp:
+                        chunks.append(recs[i:i + c])
+                        i += c
+                    blob = B.v3(THREADMAPS[0], chunks, [blk('codes', 0)])
+                    bad = judge(blob, THREADMAPS[0], recs, ['codes'], None)
+                    acc.case(nontrivial=True, transitions=5, state=h64(('order', perm, comp)), outcome=h64(('order', perm)))
+                    for sig, detail in bad:
+                        acc.violation(sig + ':records-not-in-file-order', {'kind': 'order', 'perm': list(perm), 'comp': list(comp)}, detail)
         elif desc[0] == 'cli':
             import json
             from mc.cli import run_cli
@@ -325,7 +341,7 @@ class C03(Check):
             acc.sample({k: (list(v) if isinstance(v, tuple) else v) for k, v in params.items()})
 
     def replay(self, case):
-        if case.get('kind') in ('long', 'reuse', 'blocks', 'tagged', 'cli'):
+        if case.get('kind') in ('long', 'reuse', 'blocks', 'tagged', 'cli', 'order'):
             from mc.run import Acc
             acc = Acc()
             self.run_shard((case['kind'], case.get('which')) if case['kind'] == 'blocks' else (case['kind'],), acc)
